@@ -5225,7 +5225,11 @@ fn evaluate_scalar_func(
                 .iter()
                 .zip(right.iter())
                 .map(|(l, r)| match (l, r) {
-                    (Some(lv), Some(rv)) => Some(lv << (rv as u32)),
+                    // a shift of 64 or more clears the value; otherwise the low six
+                    // bits of the count are used (a plain `<<` panics past 63)
+                    (Some(lv), Some(rv)) => {
+                        Some(if rv >= 64 { 0 } else { lv.wrapping_shl(rv as u32) })
+                    }
                     _ => None,
                 })
                 .collect();
@@ -5255,7 +5259,11 @@ fn evaluate_scalar_func(
                 .iter()
                 .zip(right.iter())
                 .map(|(l, r)| match (l, r) {
-                    (Some(lv), Some(rv)) => Some((lv as u64 >> (rv as u32)) as i64),
+                    (Some(lv), Some(rv)) => Some(if rv >= 64 {
+                        0
+                    } else {
+                        (lv as u64).wrapping_shr(rv as u32) as i64
+                    }),
                     _ => None,
                 })
                 .collect();
@@ -5289,7 +5297,12 @@ fn evaluate_scalar_func(
                 .iter()
                 .zip(right.iter())
                 .map(|(l, r)| match (l, r) {
-                    (Some(lv), Some(rv)) => Some(lv >> (rv as u32)),
+                    (Some(lv), Some(rv)) => Some(if rv >= 64 {
+                        // every bit is a copy of the sign bit
+                        lv >> 63
+                    } else {
+                        lv.wrapping_shr(rv as u32)
+                    }),
                     _ => None,
                 })
                 .collect();
